@@ -194,7 +194,9 @@ def decl_contract(cls: str, method: str):
         c.reproducible()      # C17: the declared schema does not depend on the interpreter's hash seed / clock
         c.meta = {"method": method, "params": params}
         c.ensures("registry", lambda r, post: S.registry_is(ct, cls, r, Sx, upd), ("C10", "C11", "C06"))
-        c.ensures("invariant", lambda r, post: z3.And(*S.reach_def(ct, cls, r)), ("C10",))
+        # the reachable-state invariant is what the generator (C01) and the representor (C06) contracts assume of every
+        # schema they are given: a declaration method that stops maintaining it breaks those properties as well
+        c.ensures("invariant", lambda r, post: z3.And(*S.reach_def(ct, cls, r)), ("C10", "C06", "C01"))
         c.ensures("unfold", lambda r, post: S.unfold_defs(ct, cls, r), ("C10",))
         if cls == "FloatSchema" and method in ("__call__", "min", "max"):
             c.known_region("C10-float-nan", f"FloatSchema.{method}:ensures[invariant]", M.is_FNanV(args["value"]))
@@ -203,7 +205,7 @@ def decl_contract(cls: str, method: str):
 
 for (_cls, _m) in list(SPEC):
     _short = _cls[:-len("Schema")]
-    contract(T_ + FILES[_short] + ".py", f"{_cls}.{_m}", props=("C10", "C11", "C07", "C17"),
+    contract(T_ + FILES[_short] + ".py", f"{_cls}.{_m}", props=("C10", "C11", "C07", "C17", "C06", "C01"),
              group="declaration")(decl_contract(_cls, _m))
 
 transparent(T_ + "_str_schema.py", "StrSchema.__declare_len", "StrSchema.__declare_min_len",
@@ -312,7 +314,7 @@ def _list_len(ct, P, a):
 
 spec("ListSchema", "len", ["val_or_min", "max"])(_list_len)
 for _m in ("__call__", "len"):
-    contract(LS, f"ListSchema.{_m}", props=("C10", "C11", "C07", "C17"), group="declaration")(decl_contract("ListSchema", _m))
+    contract(LS, f"ListSchema.{_m}", props=("C10", "C11", "C07", "C17", "C06", "C01"), group="declaration")(decl_contract("ListSchema", _m))
 
 
 @invariant(LS, "ListSchema.__call__", loop=0)
@@ -337,7 +339,7 @@ def dict_item_bad(ct, k: Any, v: Any) -> Any:
     return z3.If(z3.Or(k == M.EllV, v == M.EllV), z3.Not(z3.And(k == M.EllV, v == M.EllV)), z3.Not(S.is_schema(ct, v)))
 
 
-@contract(T_ + "_dict_schema.py", "DictSchema.__call__", props=("C10", "C14", "C07", "C17"), group="declaration")
+@contract(T_ + "_dict_schema.py", "DictSchema.__call__", props=("C10", "C14", "C07", "C17", "C15", "C06", "C01"), group="declaration")
 def _dict_call(c):
     """only DeclarationError; for an input dict whose keys are plain (no `...`, no optional(...)) and whose values are
     schemas, the result's key table maps each key, in order, to (schema, False) and has no other key (loop L16)"""
@@ -375,6 +377,9 @@ def _dict_call(c):
                               M.lat(pair, 0) == M.dget(keys, x), M.lat(pair, 1) == M.mk_bool(False))),
                               patterns=[M.dget(K, x)]))))
     c.ensures("keys", post)
+    # whatever mapping the caller declared from (OrderedDict, defaultdict, ...), the stored key table is an exact dict:
+    # schema equality compares it with ==, and only dict == dict is an order-insensitive equivalence (C15)
+    c.ensures("key-table-is-a-plain-dict", lambda r, post_: M.rcls(S.prop(r, "keys")) == ct.id("dict"), ("C15", "C10"))
     c.ensures("unfold", lambda r, post_: S.unfold_defs(ct, "DictSchema", r))
     vals_ok = z3.ForAll([x], z3.Implies(z3.And(M.has(keys, x), S.is_schema(ct, M.dget(keys, x))),
                                         z3.And(S.wf(M.dget(keys, x)), S.reach(M.dget(keys, x)))),
